@@ -16,7 +16,14 @@ import (
 type commandExecutor struct {
 	cmd  *exec.Cmd
 	lock sync.Mutex
+	// killed is set by a Kill that arrives before the command was started:
+	// there is no process to signal yet, so the command must not start.
+	killed bool
 }
+
+// ErrKilledBeforeStart is returned by Run when the command was killed before
+// it was started: nothing has been executed.
+var ErrKilledBeforeStart = fmt.Errorf("command was killed before it was started")
 
 func newCommand(ctx context.Context, step dag.Step) (Executor, error) {
 	// nolint: gosec
@@ -55,6 +62,10 @@ func newCommand(ctx context.Context, step dag.Step) (Executor, error) {
 
 func (e *commandExecutor) Run() error {
 	e.lock.Lock()
+	if e.killed {
+		e.lock.Unlock()
+		return ErrKilledBeforeStart
+	}
 	err := e.cmd.Start()
 	e.lock.Unlock()
 	if err != nil {
@@ -75,6 +86,7 @@ func (e *commandExecutor) Kill(sig os.Signal) error {
 	e.lock.Lock()
 	defer e.lock.Unlock()
 	if e.cmd == nil || e.cmd.Process == nil {
+		e.killed = true
 		return nil
 	}
 	return syscall.Kill(-e.cmd.Process.Pid, sig.(syscall.Signal))
